@@ -1,7 +1,9 @@
 (* C06 property theorems: statements only, each closed by `exact`, pinned by `Check`, with its assumptions
-   printed.  The sf_* constants/functions are regenerated from slot.rs on every run. *)
+   printed.  The sf_* constants/functions are regenerated from slot.rs on every run.  Model_C06.v follows the code after
+   the fixes 9cca1b6 / 8ab7f21 / 8316c55; Old_C06.v keeps the transitions before them (the `_old` theorems). *)
 From Coq Require Import NArith Bool List.
 From Gen Require Import SlotFlags.
+From C06 Require Old_C06.
 From C06 Require Import Model_C06 Proofs_C06 ProofsB_C06 ProofsC_C06.
 Import ListNotations.
 Local Open Scope N_scope.
@@ -17,68 +19,80 @@ Check shift_trick_correct : forall a,
   if has_flag a sf_PROTOTYPE then N.lor a sf_NOT_CACHEABLE else a.
 Print Assumptions shift_trick_correct.
 
-(* the faithful model refutes unconditional transparency: one witness per known class (each is a replay) *)
-Theorem known_witness :
-  (first_known init w_proto_layout 0 = Some (6, KProtoLayout) /\ refuted w_proto_layout) /\
-  (first_known init w_proto_panic 0 = Some (6, KProtoLayout) /\ refuted w_proto_panic) /\
-  (first_known init w_unique_attr 0 = Some (3, KUniqueAttr) /\ refuted w_unique_attr) /\
-  (first_known init w_unique_shadow 0 = Some (3, KUniqueShadow) /\ refuted w_unique_shadow) /\
-  (first_known init w_setter_missing 0 = Some (5, KSetterMissing) /\ refuted w_setter_missing).
-Proof. exact known_witness_lemma. Qed.
-Check known_witness :
-  (first_known init w_proto_layout 0 = Some (6, KProtoLayout) /\ refuted w_proto_layout) /\
-  (first_known init w_proto_panic 0 = Some (6, KProtoLayout) /\ refuted w_proto_panic) /\
-  (first_known init w_unique_attr 0 = Some (3, KUniqueAttr) /\ refuted w_unique_attr) /\
-  (first_known init w_unique_shadow 0 = Some (3, KUniqueShadow) /\ refuted w_unique_shadow) /\
-  (first_known init w_setter_missing 0 = Some (5, KSetterMissing) /\ refuted w_setter_missing).
-Print Assumptions known_witness.
-
-(* `delete proto.a` after caching `o.b`: the cached run panics (index out of bounds), the uncached one does not *)
-Theorem proto_panic_witness : In None (run_cached w_proto_panic) /\ ~ In None (run_uncached w_proto_panic).
-Proof. exact proto_panic_lemma. Qed.
-Check proto_panic_witness : In None (run_cached w_proto_panic) /\ ~ In None (run_uncached w_proto_panic).
-Print Assumptions proto_panic_witness.
-
-(* a heap step can only invalidate entries flagged PROTOTYPE or keyed by a unique shape *)
-Theorem disturbed_only_proto_or_unique : forall h h' ss c,
-  disturbed h h' ss = Some c ->
-  exists id ca s sl, In (id, ca) ss /\ In (s, sl) (c_entries ca) /\
-    (has_flag (s_attrs sl) sf_PROTOTYPE = true \/ exists u, s = ShUnique u).
-Proof. exact disturbed_only_proto_or_unique_lemma. Qed.
-Check disturbed_only_proto_or_unique : forall h h' ss c,
-  disturbed h h' ss = Some c ->
-  exists id ca s sl, In (id, ca) ss /\ In (s, sl) (c_entries ca) /\
-    (has_flag (s_attrs sl) sf_PROTOTYPE = true \/ exists u, s = ShUnique u).
-Print Assumptions disturbed_only_proto_or_unique.
-
-(* the cache invariant: every entry of every site describes, for the *current* heap, where the uncached lookup
-   finds the property for an object of the entry's shape (own slot, or slot of the shape's prototype object) *)
+(* the cache invariant: every entry of every site records facts about shape identities that no heap step can change: the own
+   slot of the key in the entry's shape, or (PROTOTYPE-flagged) the slot of the key in the remembered prototype shape and,
+   for a shared receiver shape, the absence of the key in it *)
 Theorem ic_valid_init : IC_valid init.
 Proof. exact IC_valid_init. Qed.
 Check ic_valid_init : IC_valid init.
 Print Assumptions ic_valid_init.
 
-(* it is preserved by every operation (define, delete, reconfigure, freeze, setPrototypeOf, preventExtensions, alloc,
-   cached get / set / global-name get incl. storing an entry and going megamorphic, eviction of weak entries)
-   that is not a known-class step *)
+(* it is preserved by every operation: define, delete, reconfigure, freeze, setPrototypeOf, preventExtensions, alloc, cached
+   get / set / global-name get incl. dropping a stale entry, storing an entry and going megamorphic, eviction of weak entries *)
 Theorem ic_valid_preserved : forall o st outs st',
-  IC_valid st -> known_step st o = None -> step false st o <> None -> step true st o = Some (outs, st') -> IC_valid st'.
+  IC_valid st -> hit_irregular st o = false -> step false st o <> None -> step true st o = Some (outs, st') -> IC_valid st'.
 Proof. exact IC_valid_step_lemma. Qed.
 Check ic_valid_preserved : forall o st outs st',
-  IC_valid st -> known_step st o = None -> step false st o <> None -> step true st o = Some (outs, st') -> IC_valid st'.
+  IC_valid st -> hit_irregular st o = false -> step false st o <> None -> step true st o = Some (outs, st') -> IC_valid st'.
 Print Assumptions ic_valid_preserved.
 
-(* transparency for every history outside the known class, relative to an uncached engine that does not panic on it *)
-Theorem ic_transparent_except_known : forall ops,
-  ~ KnownClass ops -> ~ In None (run_uncached ops) ->
-  observable (run_cached ops) = observable (run_uncached ops).
-Proof. exact ic_transparent_except_known_lemma. Qed.
-Check ic_transparent_except_known : forall ops,
-  ~ KnownClass ops -> ~ In None (run_uncached ops) ->
-  observable (run_cached ops) = observable (run_uncached ops).
-Print Assumptions ic_transparent_except_known.
+(* a key found in a shape identity stays found there at the same slot, whatever [[Set]] does to the heap *)
+Theorem set_keeps_shape_lookups : forall fuel h o k v r sl tr h' ok sl' s k' x,
+  ordinary_set fuel h o k v r sl = Some (tr, h', ok, sl') ->
+  lookup_shape h s k' = Some x -> lookup_shape h' s k' = Some x.
+Proof. exact set_keeps_shape_lookups_lemma. Qed.
+Check set_keeps_shape_lookups : forall fuel h o k v r sl tr h' ok sl' s k' x,
+  ordinary_set fuel h o k v r sl = Some (tr, h', ok, sl') ->
+  lookup_shape h s k' = Some x -> lookup_shape h' s k' = Some x.
+Print Assumptions set_keeps_shape_lookups.
 
-(* the hypotheses are satisfiable by a history that exercises own, prototype and global hits, a cached strict set,
-   a receiver layout change and a megamorphic site *)
-Example clean_history : ~ KnownClass w_clean /\ ~ In None (run_uncached w_clean) /\ hits (run_cached w_clean) = 7%nat.
+(* transparency of the repaired caches, for every history: no mutation class is excepted any more.  Two side conditions:
+   the uncached engine does not panic on the history, and no hit reads an accessor slot that lacks its GET/SET flag or holds a
+   non-callable getter ([Irregular]: such slots are made only by builtins' direct PropertyMap::insert, never by an operation
+   of a history run as JavaScript; the check evaluates first_irregular on every history it generates) *)
+Theorem ic_transparent : forall ops,
+  ~ Irregular ops -> ~ In None (run_uncached ops) ->
+  observable (run_cached ops) = observable (run_uncached ops).
+Proof. exact ic_transparent_lemma. Qed.
+Check ic_transparent : forall ops,
+  ~ Irregular ops -> ~ In None (run_uncached ops) ->
+  observable (run_cached ops) = observable (run_uncached ops).
+Print Assumptions ic_transparent.
+
+(* the five histories that refuted transparency before the fixes are transparent now (and the cached run does not panic) *)
+Theorem fixed_witness :
+  transparent_on w_proto_layout /\ transparent_on w_proto_panic /\ transparent_on w_unique_attr /\
+  transparent_on w_unique_shadow /\ transparent_on w_setter_missing.
+Proof. exact fixed_witness_lemma. Qed.
+Check fixed_witness :
+  transparent_on w_proto_layout /\ transparent_on w_proto_panic /\ transparent_on w_unique_attr /\
+  transparent_on w_unique_shadow /\ transparent_on w_setter_missing.
+Print Assumptions fixed_witness.
+
+(* the old transitions (before the fixes) refute transparency: one witness per class of the former findings *)
+Theorem known_witness_old :
+  (Old_C06.first_known Old_C06.init Old_C06.w_proto_layout 0 = Some (6, Old_C06.KProtoLayout) /\ Old_C06.refuted Old_C06.w_proto_layout) /\
+  (Old_C06.first_known Old_C06.init Old_C06.w_proto_panic 0 = Some (6, Old_C06.KProtoLayout) /\ Old_C06.refuted Old_C06.w_proto_panic) /\
+  (Old_C06.first_known Old_C06.init Old_C06.w_unique_attr 0 = Some (3, Old_C06.KUniqueAttr) /\ Old_C06.refuted Old_C06.w_unique_attr) /\
+  (Old_C06.first_known Old_C06.init Old_C06.w_unique_shadow 0 = Some (3, Old_C06.KUniqueShadow) /\ Old_C06.refuted Old_C06.w_unique_shadow) /\
+  (Old_C06.first_known Old_C06.init Old_C06.w_setter_missing 0 = Some (5, Old_C06.KSetterMissing) /\ Old_C06.refuted Old_C06.w_setter_missing).
+Proof. exact Old_C06.known_witness_lemma. Qed.
+Check known_witness_old :
+  (Old_C06.first_known Old_C06.init Old_C06.w_proto_layout 0 = Some (6, Old_C06.KProtoLayout) /\ Old_C06.refuted Old_C06.w_proto_layout) /\
+  (Old_C06.first_known Old_C06.init Old_C06.w_proto_panic 0 = Some (6, Old_C06.KProtoLayout) /\ Old_C06.refuted Old_C06.w_proto_panic) /\
+  (Old_C06.first_known Old_C06.init Old_C06.w_unique_attr 0 = Some (3, Old_C06.KUniqueAttr) /\ Old_C06.refuted Old_C06.w_unique_attr) /\
+  (Old_C06.first_known Old_C06.init Old_C06.w_unique_shadow 0 = Some (3, Old_C06.KUniqueShadow) /\ Old_C06.refuted Old_C06.w_unique_shadow) /\
+  (Old_C06.first_known Old_C06.init Old_C06.w_setter_missing 0 = Some (5, Old_C06.KSetterMissing) /\ Old_C06.refuted Old_C06.w_setter_missing).
+Print Assumptions known_witness_old.
+
+Theorem proto_panic_witness_old :
+  In None (Old_C06.run_cached_old Old_C06.w_proto_panic) /\ ~ In None (Old_C06.run_uncached_old Old_C06.w_proto_panic).
+Proof. exact Old_C06.proto_panic_lemma. Qed.
+Check proto_panic_witness_old :
+  In None (Old_C06.run_cached_old Old_C06.w_proto_panic) /\ ~ In None (Old_C06.run_uncached_old Old_C06.w_proto_panic).
+Print Assumptions proto_panic_witness_old.
+
+(* the hypotheses of ic_transparent are satisfiable by a history that exercises own, prototype and global hits, cached strict
+   sets, stale prototype entries being dropped, a receiver layout change and a megamorphic site *)
+Example clean_history : ~ Irregular w_clean /\ ~ In None (run_uncached w_clean) /\ hits (run_cached w_clean) = 8%nat.
 Proof. exact clean_history_lemma. Qed.
